@@ -25,15 +25,19 @@ func NewValidator(
 	ts *typesystem.TypeSystem,
 	obj *structpb.Struct,
 ) validation.Validator[*openfgav1.TupleKey] {
+	// Tuples that are not valid for the model are dropped before their condition is
+	// evaluated, as in Check and the other ListObjects engines: an invalid tuple
+	// (e.g. a stored context that no longer fits the parameter types) must be ignored,
+	// not turned into an evaluation error.
 	return validation.CombineValidators(
+		validation.MakeFallible(
+			validation.FilterInvalidTuples(ts),
+		),
 		validation.ValidatorFunc(checkutil.BuildTupleKeyConditionFilter(
 			ctx,
 			obj,
 			ts,
 		)),
-		validation.MakeFallible(
-			validation.FilterInvalidTuples(ts),
-		),
 	)
 }
 
